@@ -3352,6 +3352,16 @@ def syn5(ctx):
                 for s in _value_sources(y["init"], binds):
                     if s[0] == "call" and s[1].startswith("asca::") and applies(s[1]):
                         good.add(y["pat"]["hid"])
+            # `self.apply_diacritics(&mut ipa, pos)?`: a helper that applies them to a segment lent by `&mut`
+            if y["e"] in ("mcall", "call"):
+                cal = y.get("def") if y["e"] == "mcall" else hirq.strip(y["f"]).get("path")
+                if cal and cal.startswith("asca::") and applies(cal):
+                    for a_ in y["args"]:
+                        a0 = a_
+                        if isinstance(a0, dict) and a0.get("e") == "addr" and a0.get("mut"):
+                            tgt = hirq.strip(a0["a"])
+                            if tgt.get("e") == "path" and "hid" in tgt:
+                                good.add(tgt["hid"])
         if not good:
             raise AnchorMissing("SYN-5: %s applies no diacritics (no check_and_apply_diacritic, no helper that does)" % path)
 
